@@ -186,7 +186,10 @@ async def build(M, sdl, tag):
     class Mark:
         async def on_field_execution(self, da, nxt, parent, args, ctx, info): return await nxt(parent, args, ctx, info)
     for dd in M["directives"]: Directive(dd["name"], schema_name=name)(Mark())
-    return await create_engine(sdl, schema_name=name)
+    # the description may not depend on the engine's concurrency settings: every other engine is built with non-default ones
+    k = next(_uid) % 4
+    kw = [{}, {"coerce_parent_concurrently": False}, {"coerce_list_concurrently": False}, {"coerce_parent_concurrently": False, "coerce_list_concurrently": False}][k]
+    return await create_engine(sdl, schema_name=name, **kw)
 
 def compare(M, spec, named_spec, data):
     """problems between the engine's introspection `data` and the specification's description"""
@@ -290,6 +293,19 @@ async def explore(tier, seed, m):
                 if (got is None) != (exp is None): pr.append(f"__type(name: {nm!r}) is {'null' if got is None else 'non-null'}, expected {'null' if exp is None else 'an entry'}")
                 elif got is not None and (got["kind"] != exp["kind"] or sorted(f["name"] for f in got["fields"] or []) != sorted(f["name"] for f in exp["fields"] or [])):
                     pr.append(f"__type(name: {nm!r}) disagrees with __schema.types")
+            # the very same SDL supplied again (another schema name, same process): the description may not depend on what
+            # was parsed or baked before
+            if i % 3 == 0 and not pr:
+                try:
+                    e2 = await build(M, sdl, seed)
+                    rr = await e2.execute(QUERY)
+                    if rr.get("errors") or not rr.get("data"): pr.append("second build of the same SDL: introspection answered with errors")
+                    else:
+                        pr2, _ = compare(M, spec["schema"], spec["named"], rr["data"])
+                        pr += ["second build of the same SDL: " + x for x in pr2]
+                    st["rebuilt"] = st.get("rebuilt", 0) + 1
+                except Exception as ex:
+                    pr.append(f"the same valid SDL does not build a second time: {type(ex).__name__}: {ex}"[:400])
             for k in known: st["known"][k] = st["known"].get(k, 0) + 1
             st["nontrivial"].add(hashlib.sha256(json.dumps(M, sort_keys=True).encode()).hexdigest()[:16])
             if pr:
